@@ -36,3 +36,26 @@ def set_state_and_raise(x):
     me = _me()
     me.user_state = ('child', x)
     raise ValueError('boom', x)
+
+
+def cooperative_loop():
+    import time
+    while True:
+        time.sleep(0.01)
+
+
+def swallowing_loop():
+    import time
+    while True:
+        try:
+            while True:
+                time.sleep(0.01)
+        except Exception:
+            pass
+
+
+def mutating(lst, x=0, acc=None):
+    """appends x to both its positional default list and its keyword default list (in place) and returns them"""
+    lst.append(x)
+    acc.append(x)
+    return (list(lst), list(acc))
